@@ -201,6 +201,7 @@ impl Gen {
       maxalign: r.pick(&[8, 16, 64]),
       retries: r.pick(&[1, 2, 5]),
       magic: r.below(65536) as u16,
+      offset: 0,
     }
   }
 
